@@ -3,5 +3,5 @@ package main
 // extraGenFiles: fact extractors that pattern-match one AST shape and emit a table
 // (never by widening the translator).  Added per property.
 func extraGenFiles() []genFile {
-	return append(append(factGenFiles(), skeletonGenFiles()...), moreSkeletonGenFiles()...)
+	return append(append(append(factGenFiles(), skeletonGenFiles()...), moreSkeletonGenFiles()...), coreSkeletonGenFiles()...)
 }
